@@ -51,7 +51,8 @@ Record icase := mkICase {
   ic_table : table;
   ic_out : outcome;                 (* implementation *)
   ic_post : istate cval;            (* implementation *)
-  ic_world_post : world cval        (* implementation: logs, calls, bound, props *)
+  ic_world_post : world cval;       (* implementation: logs, calls, bound, props *)
+  ic_selected : option (list nat)   (* implementation: result of _select_transitions when observable *)
 }.
 
 (* the implementation's evaluator calls, oldest first, are the table entries in order *)
@@ -213,11 +214,13 @@ Definition run_case (c : icase) : mstate cval (world cval) * outcome :=
   end.
 
 (* fired transitions of the implementation vs. the model's selection, whenever both are known *)
-Definition selected_bits (tr : list (obs cval)) (impl : outcome) : N :=
-  match model_selected tr, impl with
-  | Some sel, OutMacro (Some m) => bit (list_eqb Nat.eqb (sort_nat sel) (sort_nat (trans_of (snd m)))) B_SELECTED
-  | Some (_ :: _), OutMacro None => B_SELECTED
-  | _, _ => 0%N
+Definition selected_bits (tr : list (obs cval)) (impl : outcome) (isel : option (list nat)) : N :=
+  match model_selected tr, impl, isel with
+  | Some sel, OutMacro (Some m), _ => bit (list_eqb Nat.eqb (sort_nat sel) (sort_nat (trans_of (snd m)))) B_SELECTED
+  | Some (_ :: _), OutMacro None, _ => B_SELECTED
+  | Some sel, _, Some l => bit (list_eqb Nat.eqb (sort_nat sel) (sort_nat l)) B_SELECTED
+  | None, _, Some (_ :: _) => B_SELECTED
+  | _, _, _ => 0%N
   end.
 
 (* ---- Pb on implementation outputs ---- *)
@@ -310,7 +313,7 @@ Definition check_icase (c : icase) : N :=
   let '(s, out) := run_case c in
   let mask :=
   N.lor (pb_bits c)
-  (N.lor (selected_bits (m_tr s) (ic_out c))
+  (N.lor (selected_bits (m_tr s) (ic_out c) (ic_selected c))
   (N.lor (outcome_bits out (ic_out c))
   (N.lor (istate_bits (m_i s) (ic_post c))
   (N.lor (world_bits (m_x s) (ic_world_post c))
